@@ -67,7 +67,7 @@ def run(prog, job: dict) -> dict:
 
     paths = []
     funcs: set[str] = set()
-    for it, outcome in explore(prog, scenario, max_paths=8, generic_strings=True):
+    for it, outcome in explore(prog, scenario, max_paths=8, generic_strings=True, tunable_scale=job.get("tunable_scale")):
         for e in it.events:
             if e["kind"] == "call":
                 funcs.add(f"{e['module']}.{e['func']}")
@@ -91,12 +91,16 @@ def check(chk: Check) -> None:
                         if (physical == 1 and j in (1, 2)) or (thorough and j in (0, 1, 2, 3, 5)):
                             for src in ("raw-nonseekable", "buffered-nonseekable"):
                                 jobs.append(dict(physical=physical, complete=j, cut=cut, integ=integ, parser=parser, source=src))
+    # thresholds written in the source (prefetch depths, batch and chunk sizes) scaled below the number of frames
+    from .. import tunables
+
+    jobs += [dict(jb, tunable_scale=tunables.SCALE) for jb in jobs if jb["complete"] in (2, 4) and jb["physical"] in (1, 3)]
     for res in pmap(run, jobs):
         if res is None:
             continue
         chk.functions.update(res["funcs"])
         jb = res["job"]
-        inst = f"{jb['integ']}.{jb['parser']} physical={jb['physical']} {jb.get('source', 'seekable')} source complete_frames={jb['complete']} then {jb['cut']}"
+        inst = f"{jb['integ']}.{jb['parser']} physical={jb['physical']} {jb.get('source', 'seekable')} source complete_frames={jb['complete']} then {jb['cut']}" + (f" [tunables={jb['tunable_scale']}]" if jb.get("tunable_scale") else "")
         construct = f"pyjelly.integrations.{jb['integ']}.parse.{jb['parser']}:lazy-prefix"
         for p in res["paths"]:
             chk.paths += 1
